@@ -1,6 +1,7 @@
 package c19
 
 import (
+	"crypto/sha256"
 	"encoding/base64"
 	"encoding/hex"
 	"fmt"
@@ -52,11 +53,16 @@ func bagRegions(b []byte) ([]string, error) {
 			return nil, fmt.Errorf("bagRegions: cell %d outside the bag", c)
 		}
 		d1, d2 := int(b[p]), int(b[p+1])
-		if d1&0x10 != 0 {
-			return nil, fmt.Errorf("bagRegions: stored hashes not expected in own output")
-		}
 		mark(1, "d1")
 		mark(1, "d2")
+		if d1&0x10 != 0 { // stored hashes and depths, one pair per significant level
+			n := 1
+			for m := d1 >> 5; m != 0; m >>= 1 {
+				n += m & 1
+			}
+			mark(32*n, "stored_hash")
+			mark(2*n, "stored_depth")
+		}
 		mark(d2/2+d2%2, "data")
 		mark((d1&7)*size, "ref")
 	}
@@ -129,10 +135,12 @@ func driveBagSweep(w *ev.Writer, r *rand.Rand, thorough bool, seed int64, shard,
 	for _, v := range append(append([]string{}, stdVersions...), otherVersions...) {
 		jobs = append(jobs, job{v, "plain"})
 	}
+	jobs = append(jobs, job{"v3r2", "hashes"})
 	if thorough {
 		for _, v := range []string{"v3r2", "v4r2", "v5r1", "v5beta", "v3r2_lockup"} {
 			jobs = append(jobs, job{v, "crc"}, job{v, "idx"}, job{v, "idx_crc_cache"})
 		}
+		jobs = append(jobs, job{"v4r2", "hashes"}, job{"v5beta", "hashes"}, job{"v1r3", "hashes"})
 	}
 	n := 0
 	for ji, j := range jobs {
@@ -152,7 +160,13 @@ func driveBagSweep(w *ev.Writer, r *rand.Rand, thorough bool, seed int64, shard,
 		if err != nil {
 			return err
 		}
-		if j.variant != "plain" {
+		if j.variant == "hashes" {
+			cells, root, err := bagCells(raw)
+			if err != nil {
+				return err
+			}
+			raw = writeWithHashes(cells, root, func(int) bool { return true }, nil)
+		} else if j.variant != "plain" {
 			c, err := siCell(b.owner.si)
 			if err != nil {
 				return err
@@ -198,4 +212,100 @@ func driveBagSweep(w *ev.Writer, r *rand.Rand, thorough bool, seed int64, shard,
 		}
 	}
 	return nil
+}
+
+// ---------------------------------------------------------------- bags written "with hashes"
+
+type bagCell struct {
+	d1, d2 byte
+	data   []byte
+	refs   []int
+	hash   []byte // representation hash computed from the content (level 0 cells only)
+	depth  int
+}
+
+// bagCells reads the cells of a bag the library wrote itself (no stored hashes, every cell of level 0) and computes
+// hash and depth of each from its content: sha256(d1 d2 data depth(ref).. hash(ref)..).
+func bagCells(b []byte) ([]bagCell, int, error) {
+	reg, err := bagRegions(b)
+	if err != nil {
+		return nil, 0, err
+	}
+	size := int(b[4] & 7)
+	rd := func(p, n int) int {
+		v := 0
+		for i := 0; i < n; i++ {
+			v = v<<8 | int(b[p+i])
+		}
+		return v
+	}
+	root := rd(6+3*size+int(b[5]), size)
+	var cells []bagCell
+	for p := 0; p < len(b); {
+		if reg[p] != "d1" {
+			p++
+			continue
+		}
+		c := bagCell{d1: b[p], d2: b[p+1]}
+		if c.d1>>5 != 0 {
+			return nil, 0, fmt.Errorf("bagCells: cell of level > 0")
+		}
+		dl := int(c.d2)/2 + int(c.d2)%2
+		c.data = b[p+2 : p+2+dl]
+		p += 2 + dl
+		for j := 0; j < int(c.d1&7); j++ {
+			c.refs = append(c.refs, rd(p, size))
+			p += size
+		}
+		cells = append(cells, c)
+	}
+	for i := len(cells) - 1; i >= 0; i-- {
+		c := &cells[i]
+		repr := append([]byte{c.d1, c.d2}, c.data...)
+		for _, r := range c.refs {
+			if r <= i || r >= len(cells) {
+				return nil, 0, fmt.Errorf("bagCells: reference out of order")
+			}
+			repr = append(repr, byte(cells[r].depth>>8), byte(cells[r].depth))
+			if cells[r].depth+1 > c.depth {
+				c.depth = cells[r].depth + 1
+			}
+		}
+		for _, r := range c.refs {
+			repr = append(repr, cells[r].hash...)
+		}
+		h := sha256.Sum256(repr)
+		c.hash = h[:]
+	}
+	return cells, root, nil
+}
+
+type storedHD struct {
+	hash  []byte
+	depth int
+}
+
+// writeWithHashes serialises the cells again (generic magic, no index, no checksum) with stored hash and depth in front of
+// the data of every cell selected by `with`; `fake` overrides what is stored for a cell.
+func writeWithHashes(cells []bagCell, root int, with func(i int) bool, fake map[int]storedHD) []byte {
+	var data []byte
+	for i, c := range cells {
+		if with(i) {
+			h, d := c.hash, c.depth
+			if f, ok := fake[i]; ok {
+				h, d = f.hash, f.depth
+			}
+			data = append(data, c.d1|0x10, c.d2)
+			data = append(data, h...)
+			data = append(data, byte(d>>8), byte(d))
+		} else {
+			data = append(data, c.d1, c.d2)
+		}
+		data = append(data, c.data...)
+		for _, r := range c.refs {
+			data = append(data, byte(r))
+		}
+	}
+	out := []byte{0xb5, 0xee, 0x9c, 0x72, 0x01, 0x03, byte(len(cells)), 0x01, 0x00, byte(len(data) >> 16), byte(len(data) >> 8), byte(len(data)), byte(root)}
+	return append(out, data...)
 }
